@@ -87,7 +87,7 @@ VC_REQUIRES(VC_FRESH(parser, sizeof(*parser)) && parser->max_depth >= 1 &&
 VC_ASSIGNS(parser->cb, parser->cb_context, parser->buffer, parser->buffer_size, parser->type,
            VC_NAV_FRAME(parser))
 
-VC_ENSURES(parser->cb == NULL && parser->cb_context == NULL && parser->buffer == buffer &&
+VC_ENSURES(parser->cb == NULL && parser->cb_context == NULL && VC_PTR_EQ(parser->buffer, buffer) &&
            parser->buffer_size == buffer_size && parser->type == VC_PT_OBJECT &&
            parser->max_depth == VC_OLD(parser->max_depth) && parser->state == VC_OLD(parser->state)) /*@ init-config */
 VC_ENSURES(VC_RET == (buffer_size >= 2 &&
@@ -112,7 +112,7 @@ VC_REQUIRES(VC_FRESH(parser, sizeof(*parser)) && parser->max_depth >= 1 &&
 VC_ASSIGNS(parser->cb, parser->cb_context, parser->buffer, parser->buffer_size, parser->type,
            VC_NAV_FRAME(parser))
 
-VC_ENSURES(parser->cb == NULL && parser->cb_context == NULL && parser->buffer == buffer &&
+VC_ENSURES(parser->cb == NULL && parser->cb_context == NULL && VC_PTR_EQ(parser->buffer, buffer) &&
            parser->buffer_size == buffer_size && parser->type == VC_PT_ARRAY &&
            parser->max_depth == VC_OLD(parser->max_depth) && parser->state == VC_OLD(parser->state)) /*@ init-config */
 VC_ENSURES(VC_RET == (buffer_size >= 2 &&
@@ -1047,7 +1047,7 @@ VC_ASSIGNS(parser->cb, parser->cb_context, parser->buffer, parser->buffer_size, 
            VC_NAV_FRAME(parser))
 VC_REQUIRES(type == VC_PT_OBJECT || type == VC_PT_ARRAY)
 
-VC_ENSURES(parser->cb == NULL && parser->cb_context == NULL && parser->buffer == buffer &&
+VC_ENSURES(parser->cb == NULL && parser->cb_context == NULL && VC_PTR_EQ(parser->buffer, buffer) &&
            parser->buffer_size == buffer_size && parser->type == type &&
            parser->max_depth == VC_OLD(parser->max_depth) && parser->state == VC_OLD(parser->state)) /*@ init-config */
 VC_ENSURES(VC_RET == (buffer_size >= 2 &&
